@@ -314,7 +314,9 @@ void parse_opml_token_chain(mmd_engine * e, token * chain) {
 					}
 
 					if (walker->type == OPML_OUTLINE_SELF_CLOSE) {
-						header_level--;
+						if (header_level > 0) {
+							header_level--;
+						}
 					}
 
 					break;
@@ -326,7 +328,9 @@ void parse_opml_token_chain(mmd_engine * e, token * chain) {
 					break;
 
 				case OPML_OUTLINE_CLOSE:
-					header_level--;
+					if (header_level > 0) {
+						header_level--;
+					}
 					break;
 
 				default:
